@@ -65,12 +65,16 @@ type poller struct {
 	// entails writing a single byte to the write end of the wakeupPipe.
 	posts []func()
 
+	// spare is the slice posts is swapped with while the handlers are being run. Only used by the poller's goroutine.
+	spare []func()
+
 	// lck synchronizes access to the posts slice.
 	// This is needed because multiple goroutines can call ioc.Post(...)
 	// on the same IO object.
 	lck sync.Mutex
 
-	// pending is the number of pending posts the poller needs to execute
+	// pending is the number of pending events and posts. Posts are counted from any goroutine, hence it must only
+	// be accessed atomically.
 	pending int64
 
 	// closed is true if the close() has been called on fd
@@ -105,13 +109,13 @@ func NewPoller() (Poller, error) {
 		return nil, err
 	}
 	// ignore the waker
-	p.pending--
+	atomic.AddInt64(&p.pending, -1)
 
 	return p, err
 }
 
 func (p *poller) Pending() int64 {
-	return p.pending
+	return atomic.LoadInt64(&p.pending)
 }
 
 func (p *poller) Close() error {
@@ -130,7 +134,7 @@ func (p *poller) Closed() bool {
 func (p *poller) Post(handler func()) error {
 	p.lck.Lock()
 	p.posts = append(p.posts, handler)
-	p.pending++
+	atomic.AddInt64(&p.pending, 1)
 	p.lck.Unlock()
 
 	// Concurrent writes are thread safe for eventfds.
@@ -218,13 +222,20 @@ func (p *poller) dispatch() {
 		}
 	}
 
+	// Take the posted handlers and run them without holding the lock: a handler is allowed to Post (which takes the
+	// lock), and other goroutines must not be blocked for as long as handlers run. Handlers posted meanwhile land in
+	// the other slice and are run in the next cycle (the waker has been written for them).
 	p.lck.Lock()
-	for _, handler := range p.posts {
-		handler()
-		p.pending--
-	}
-	p.posts = p.posts[:0]
+	posts := p.posts
+	p.posts = p.spare[:0]
 	p.lck.Unlock()
+
+	for i, handler := range posts {
+		handler()
+		posts[i] = nil
+		atomic.AddInt64(&p.pending, -1)
+	}
+	p.spare = posts[:0]
 }
 
 func (p *poller) SetRead(slot *Slot) error {
@@ -238,7 +249,7 @@ func (p *poller) SetWrite(slot *Slot) error {
 func (p *poller) setRW(fd int, slot *Slot, flag PollerEvent) error {
 	events := &slot.Events
 	if *events&flag != flag {
-		p.pending++
+		atomic.AddInt64(&p.pending, 1)
 
 		oldEvents := *events
 		*events |= flag
@@ -253,7 +264,7 @@ func (p *poller) setRW(fd int, slot *Slot, flag PollerEvent) error {
 			// The kernel did not take the registration (e.g. EPERM for a regular file, EBADF for a descriptor closed
 			// underneath): nothing is pending and the slot must not claim interest it does not have.
 			*events = oldEvents
-			p.pending--
+			atomic.AddInt64(&p.pending, -1)
 		}
 		return err
 	}
@@ -304,7 +315,7 @@ func (p *poller) Del(slot *Slot) error {
 func (p *poller) DelRead(slot *Slot) error {
 	events := &slot.Events
 	if *events&PollerReadEvent == PollerReadEvent {
-		p.pending--
+		atomic.AddInt64(&p.pending, -1)
 		*events ^= PollerReadEvent
 		if *events != 0 {
 			return p.modify(slot.Fd, createEvent(*events, slot))
@@ -317,7 +328,7 @@ func (p *poller) DelRead(slot *Slot) error {
 func (p *poller) DelWrite(slot *Slot) error {
 	events := &slot.Events
 	if *events&PollerWriteEvent == PollerWriteEvent {
-		p.pending--
+		atomic.AddInt64(&p.pending, -1)
 		*events ^= PollerWriteEvent
 		if *events != 0 {
 			return p.modify(slot.Fd, createEvent(*events, slot))
